@@ -208,12 +208,16 @@ func init() {
 		shards := fs.Int("shards", 1, "number of shards")
 		replay := fs.String("replay", "", "re-run scripts")
 		only := fs.String("only", "", "only flows whose name starts with this")
+		variants := fs.String("variants", "0,1,2,3,4,5", "configuration variants to run (bit 0 writing error handler, bit 1 API, 4-5 without the lock module)")
 		return func(enc *json.Encoder) error {
 			if *replay != "" {
 				return replayFile(*replay, enc)
 			}
 			id := 0
 			for _, variant := range []int{0, 1, 2, 3, 4, 5} {
+				if !strings.Contains(","+*variants+",", ","+string(rune('0'+variant))+",") {
+					continue
+				}
 				errWrites, api, lockless := variant&1 == 1, variant&2 == 2, variant >= 4
 				{
 					cfg := faultCfg(errWrites, api)
